@@ -5,6 +5,7 @@
 //!   verif-harness record <module> <driver> <seed> <quick|thorough> <out.ndjson>
 //!   verif-harness rerun  <module> <in.ndjson> <out.ndjson>
 //!   verif-harness graph  <module> <graph.json> <seed> <quick|thorough>
+#[cfg(feature = "core-hooks")]
 mod adsr;
 mod exact;
 mod glide;
@@ -19,6 +20,7 @@ mod ribbon;
 mod util;
 #[cfg(feature = "aux-hooks")]
 mod utils;
+#[cfg(feature = "core-hooks")]
 mod voice;
 
 use util::*;
@@ -60,11 +62,13 @@ fn main() {
             let stats = match module {
                 "midi" => midi::record(driver, seed, thorough, &mut out),
                 "lfo" => lfo::record(driver, seed, thorough, &mut out),
+                #[cfg(feature = "core-hooks")]
                 "adsr" => adsr::record(driver, seed, thorough, &mut out),
                 "quant" => quant::record(driver, seed, thorough, &mut out),
                 "ribbon" => ribbon::record(driver, seed, thorough, &mut out),
                 "glide" => glide::record(driver, seed, thorough, &mut out),
                 "params" => params::record(driver, seed, thorough, &mut out),
+                #[cfg(feature = "core-hooks")]
                 "voice" => voice::record(driver, seed, thorough, &mut out),
                 #[cfg(feature = "aux-hooks")]
                 "utils" => utils::record(driver, seed, thorough, &mut out),
@@ -86,11 +90,13 @@ fn main() {
             match args[2].as_str() {
                 "midi" => midi::rerun(&lines, &mut out),
                 "lfo" => lfo::rerun(&lines, &mut out),
+                #[cfg(feature = "core-hooks")]
                 "adsr" => adsr::rerun(&lines, &mut out),
                 "quant" => quant::rerun(&lines, &mut out),
                 "ribbon" => ribbon::rerun(&lines, &mut out),
                 "glide" => glide::rerun(&lines, &mut out),
                 "params" => params::rerun(&lines, &mut out),
+                #[cfg(feature = "core-hooks")]
                 "voice" => voice::rerun(&lines, &mut out),
                 #[cfg(feature = "aux-hooks")]
                 "utils" => utils::rerun(&lines, &mut out),
@@ -109,6 +115,7 @@ fn main() {
             let thorough = args[5] == "thorough";
             let rc = match args[2].as_str() {
                 "midi" => graphrun::run(&g, &mut midi::GraphTarget::new(3), seed, thorough),
+                #[cfg(feature = "core-hooks")]
                 "adsr" => graphrun::run(&g, &mut adsr::GraphTarget::new(&g.init_proj), seed, thorough),
                 "lfo" => graphrun::run(&g, &mut lfo::GraphTarget::new(), seed, thorough),
                 "ribbon100" => graphrun::run(&g, &mut ribbon::GraphTarget::new(100), seed, thorough),
